@@ -157,17 +157,23 @@ func genInvalid(g *Rng, w *World, cfg map[string]any) []InvalidCase {
 				map[string]any{"src": "@SRC@src/bin/app", "dst": "/opt/zzlong/app"})
 		})
 	})
-	// dpkg-sig clear-signs with the primary key; a subkeys-only export (the
-	// primary secret key is a stub) cannot do that: signing must fail loudly
+	// a subkeys-only export (the primary secret key is a stub) asked to sign
+	// with its primary key: cannot work; with dpkg-sig the failure surfaces
+	// when the clear-signer is closed
 	haveD := false
 	for _, e := range w.Tree {
 		haveD = haveD || e.Path == "keys/subonly.asc"
 	}
 	if !haveD {
 		w.Tree = append(w.Tree, TreeEntry{Path: "keys/subonly.asc", Kind: "file", KeyRef: "pgp_d.asc", Mode: 0o600, MTime: 1500000000})
+		w.Tree = append(w.Tree, TreeEntry{Path: "keys/notrsa.pem", Kind: "file", KeyRef: "ec_a.pkcs8.priv", Mode: 0o600, MTime: 1500000000})
 	}
-	mk("deb.signature.dpkg-sig.subkeys-only-key", []string{"deb"}, func(m map[string]any) {
-		subMap(m, "deb")["signature"] = map[string]any{"key_file": "@SRC@keys/subonly.asc", "method": "dpkg-sig"}
+	mk("deb.signature.dpkg-sig.primary-key-of-a-subkeys-only-file", []string{"deb"}, func(m map[string]any) {
+		subMap(m, "deb")["signature"] = map[string]any{"key_file": "@SRC@keys/subonly.asc", "method": "dpkg-sig", "key_id": keyID("pgp_d")}
+	})
+	// apk signatures are RSA signatures
+	mk("apk.signature.key-not-rsa", []string{"apk"}, func(m map[string]any) {
+		subMap(m, "apk")["signature"] = map[string]any{"key_file": "@SRC@keys/notrsa.pem", "key_name": "verifkey"}
 	})
 	if contains(w.Signed, "deb") {
 		mk("deb.signature.type.invalid", []string{"deb"}, func(m map[string]any) {
